@@ -131,6 +131,21 @@ def symtab():
     return _ST
 
 
+_ST2 = None
+
+
+def symtab2():
+    """a second table with the same symbols, the same size and another id assignment (another trace of the same program)"""
+    global _ST2
+    if _ST2 is None:
+        from hta.common.trace_symbol_table import TraceSymbolTable
+
+        _ST2 = TraceSymbolTable()
+        syms = list(symtab().get_sym_table())
+        _ST2.add_symbols(syms[3:] + syms[:3])
+    return _ST2
+
+
 def make_filter(spec):
     from hta.common import trace_filter as tf
 
@@ -156,10 +171,10 @@ def make_filter(spec):
     raise ValueError(spec)
 
 
-def make_frame(rows, mode):
+def make_frame(rows, mode, st=None):
     import pandas as pd
 
-    st = symtab()
+    st = st or symtab()
     n = len(rows)
     labels = [(7 * i + 3) % 11 + 20 * (i % 2) for i in range(n)]  # distinct, non-monotone
     d = {
@@ -246,6 +261,18 @@ def check(world) -> Dict[str, Any]:
                         viol.append((f"not-a-sub-frame/{tag}", dict(spec=spec, rows=rows)))
                     elif len(labs) and same_rows(out, before, [pos[x] for x in labs]):
                         viol.append((f"cell-contents-changed/{tag}", dict(spec=spec, rows=rows)))
+                # one filter object used for two encoded frames that belong to different symbol tables
+                if mode == "enc" and spec[0] in ("Name", "MemCopy", "GPU", "CPU") and rows:
+                    fobj = make_filter(spec)
+                    for which, tab in (("first-table", symtab()), ("second-table", symtab2()), ("first-table-again", symtab())):
+                        dfx = make_frame(rows, "enc", tab)
+                        outx = fobj(dfx, tab)
+                        execs += 1
+                        p2 = pred_for(spec, rows, "enc")
+                        keep2 = [i for i, r in enumerate(rows) if p2(r)]
+                        err2 = same_rows(outx, dfx, keep2)
+                        if err2:
+                            viol.append((f"filter-object-reused/{err2}/{spec[0]}/{which}", dict(spec=spec, rows=rows)))
                 # idempotence for row-local filters
                 if spec[0] in ROW_LOCAL and len(out) and list(out.columns) == list(before.columns):
                     out2 = apply(spec, out, st)
